@@ -21,6 +21,12 @@ RULES = {
                'first: a call does not depend on a previous call on the same object',
     'R-FAILED': 'on every explored path `failed` is exactly "the loop ended without the convergence test succeeding" (iteration cap '
                 'reached), and `degenerate` is the flag of the state machine',
+    'R-SELFCHECK': 'the interior self check of the radius search compares f(z0 + r*c) with the power series sum_k b_k c^k of the '
+                   'coefficients just computed, for complex b_k, z0 and f (no conjugation, the same check point on both sides): a test '
+                   'that is wrong for complex data shrinks the radius on every iteration and ends degenerate',
+    'R-EXTRAPOLATE': 'the two-level Richardson step over the circles: for coefficient estimates b(r_i) = a + B r_i^m + C r_i^2m (the '
+                     'aliasing terms of the FFT) on symbolic radii, _extrapolate returns one estimate per consecutive triple of circles '
+                     '(len(rs) - 2 rows, the newest circle included) and every row equals a exactly',
     'R-FACTORIAL': 'derivative() multiplies the coefficients and their error estimates by the same k!, k = 0..m-1 with m computed from '
                    'the same n, and forwards the other status fields unchanged; without full_output it returns coefficients * k!',
 }
@@ -43,9 +49,11 @@ def run(ctx):
         'explored (iteration cap 4): dtype-kind flow of the complex FFT data, completeness of the per-call state reset, the '
         'meaning of the failed flag; and, in exact algebra, the factorial scaling of derivative().')
     for rid, text in RULES.items():
-        rep.rule(rid, text, {'R-KIND': 2, 'R-RESET': 1, 'R-FAILED': 2, 'R-FACTORIAL': 2}[rid])
+        rep.rule(rid, text, {'R-KIND': 2, 'R-RESET': 1, 'R-FAILED': 2, 'R-SELFCHECK': 3, 'R-EXTRAPOLATE': 2, 'R-FACTORIAL': 2}[rid])
     fb = ctx.repo.module('fornberg')
     taylor_runs(ctx, fb)
+    selfcheck(ctx, fb)
+    extrapolate(ctx, fb)
     factorial(ctx, fb)
     rep.notes['trusted_base'] = ['python ast', 'ndverif abstract interpreter and numpy summaries (np.fft.fft returns complex)']
 
@@ -125,6 +133,111 @@ def taylor_runs(ctx, fb):
         rep.check(written and not missing, 'R-RESET', 'fornberg.Taylor._initialize', where,
                   {'reset_by__initialize': sorted(in_init), 'written_during_call': sorted(elsewhere), 'not_reset': missing},
                   'every attribute written during a call is assigned by _initialize', label, key='reset')
+
+
+def selfcheck(ctx, fb):
+    """_poor_convergence in exact algebra: what is compared with what."""
+    from .. import algebra
+    from ..algebra import alg_equal
+    rep = ctx.rep
+    if '_poor_convergence' not in fb.funcs:
+        raise AnalysisError('anchor vanished: fornberg._poor_convergence')
+    where = fb.where(ctx.repo.func('fornberg', '_poor_convergence'))
+    m = 4
+    names = ['b%d' % k for k in range(m)] + ['z0']
+    algebra.COMPLEX_ATOMS.update(names)
+    try:
+        seen_abs, fcalls = [], []
+
+        def hook(name, x):
+            if name in ('abs', 'absolute'):
+                seen_abs.append(x)
+                nm = 'ABS%d' % len(seen_abs)
+                ndarr.POSITIVE_ATOMS.add(nm)
+                return Poly.sym(nm)
+            return NotImplemented
+        models = Models(hooks={'ufunc': hook})
+        I = Interp(ctx.repo, models, branch_oracle=lambda i, node, fr, v: False)
+        models.bind(I)
+
+        def f(zt, *a, **k):
+            fcalls.append(zt)
+            nm = 'F%d' % len(fcalls)
+            algebra.COMPLEX_ATOMS.add(nm)
+            return Poly.sym(nm)
+        bn = Arr((m,), [Poly.sym('b%d' % k) for k in range(m)])
+        z0, r = Poly.sym('z0'), Poly.sym('r')
+        ndarr.POSITIVE_ATOMS.add('r')
+        I.get_global('fornberg', '_poor_convergence')(z0, r, f, bn, Arr((m,), list(range(m)), kind='i'))
+        diffs = [v for v in seen_abs if isinstance(v, (Poly,)) and any(a.startswith('F') for a in v.atoms())
+                 and any(a.startswith('b') or a.startswith('cj:b') for a in v.atoms())]
+        rep.check(len(fcalls) >= 1 and len(diffs) == len(fcalls), 'R-SELFCHECK', 'fornberg._poor_convergence', where,
+                  {'f_evaluations': len(fcalls), 'differences_compared': len(diffs)},
+                  'one difference series - f per check point', 'structure', key='selfcheck structure')
+        for i, (zt, d) in enumerate(zip(fcalls, diffs)):
+            cpt = (Poly.of(zt) - z0) / r                 # the check point actually used for f
+            problems = []
+            if not (isinstance(cpt, Poly) and cpt.is_const()):
+                problems.append('f is evaluated at %r, not at z0 + r * (a constant check point)' % (zt,))
+            else:
+                series = Poly.const(0)
+                for k in range(m):
+                    series = series + Poly.sym('b%d' % k) * cpt ** k
+                want = series - Poly.sym('F%d' % (i + 1))
+                if not (alg_equal(d, want) or alg_equal(d, -want)):
+                    problems.append('compared quantity %s is not sum_k b_k c^k - f(z0 + r c) for c = %r' % (repr(d)[:120], cpt))
+            rep.check(not problems, 'R-SELFCHECK', 'fornberg._poor_convergence', where, {'problems': problems[:2]},
+                      'series of the computed coefficients at the check point minus f there', 'check point %d' % i,
+                      key='selfcheck series')
+    except InterpRaise as exc:
+        rep.violation('R-SELFCHECK', 'fornberg._poor_convergence', where, {'raises': exc.exc_name, 'message': exc.msg[:100]},
+                      'the test is evaluated', 'complex data', key='selfcheck raises')
+    finally:
+        for nm in list(algebra.COMPLEX_ATOMS):
+            if nm in names or nm.startswith('F'):
+                algebra.COMPLEX_ATOMS.discard(nm)
+        ndarr.POSITIVE_ATOMS.discard('r')
+
+
+def extrapolate(ctx, fb):
+    from ..algebra import alg_equal
+    rep = ctx.rep
+    if '_extrapolate' not in fb.funcs:
+        raise AnalysisError('anchor vanished: fornberg._extrapolate')
+    where = fb.where(ctx.repo.func('fornberg', '_extrapolate'))
+    for nk, m in ((3, 2), (5, 2), (6, 3)) if ctx.tier == 'quick' else ((3, 2), (4, 2), (5, 2), (6, 3), (7, 4)):
+        label = '%d circles, m=%d' % (nk, m)
+        models = Models()
+        I = Interp(ctx.repo, models)
+        models.bind(I)
+        rs = [Poly.sym('r%d' % i) for i in range(nk)]
+        ndarr.POSITIVE_ATOMS.update('r%d' % i for i in range(nk))
+        A, B, C = Poly.sym('a'), Poly.sym('B'), Poly.sym('C')
+        bs = [Arr((2,), [A + B * r ** m + C * r ** (2 * m), A * 2 + B * 3 * r ** m - C * r ** (2 * m)]) for r in rs]
+        try:
+            out = I.get_global('fornberg', '_extrapolate')(list(bs), list(rs), m)
+            rows = list(out) if isinstance(out, (list, tuple)) else ([out[i] for i in range(out.shape[0])] if isinstance(out, Arr) else None)
+            problems = []
+            if rows is None:
+                problems.append('result is %r' % (out,))
+            else:
+                if len(rows) != nk - 2:
+                    problems.append('%d rows for %d circles, expected %d (one per consecutive triple)' % (len(rows), nk, nk - 2))
+                for j, row in enumerate(rows):
+                    vals = row.items() if isinstance(row, Arr) else [row]
+                    if len(vals) != 2 or not alg_equal(vals[0], A) or not alg_equal(vals[1], A * 2):
+                        problems.append('row %d is %s, not the limit' % (j, repr(vals[0])[:100]))
+                        break
+            rep.check(not problems, 'R-EXTRAPOLATE', 'fornberg._extrapolate', where, {'problems': problems[:2]},
+                      'len(rs) - 2 rows, each free of the r^m and r^2m terms', label, key='extrapolate')
+        except InterpRaise as exc:
+            rep.violation('R-EXTRAPOLATE', 'fornberg._extrapolate', where, {'raises': exc.exc_name, 'message': exc.msg[:100]},
+                          'rows', label, key='extrapolate raises')
+        except AnalysisError as exc:
+            rep.undecided('R-EXTRAPOLATE', 'fornberg._extrapolate', exc, label)
+        finally:
+            for i in range(nk):
+                ndarr.POSITIVE_ATOMS.discard('r%d' % i)
 
 
 def factorial(ctx, fb):
